@@ -20,48 +20,56 @@ Theorem C05_generated_fact : send_in_cs gen_program = false.
 Proof. exact gen_send_in_cs_false. Qed.
 
 Section Protocol.
-  Context {E X D C R : Type}.
+  Context {E X D C R I K : Type}.
   Variable api : D -> C -> D * R.
   Variable closed_result : C -> R.
+  Variable pre : I -> list (@msg E X).
+  Variable hnd : D -> I -> D * list (@msg E X).
+  Variable env : D -> K -> option D.
+  Notation cstate := (@cstate E X D C R I K).
+  Notation reachable := (reachable api closed_result pre hnd env).
+  Notation crun := (crun api closed_result pre hnd env).
+  Notation cstep := (cstep api closed_result pre hnd env).
+  Notation reader_step := (reader_step pre hnd).
   Let cf := mkCf (send_in_cs gen_program) (guard_first gen_program).
 
   (* Add / Remove / WatchList in flight complete within 4 steps of threads, with NO consumer, kernel or other step
      needed, from every reachable state: whatever is buffered or pending, for every capacity and schedule so far *)
-  Theorem C05_api_call_returns : forall cap d (s : @cstate E X D C R) t p,
-    reachable api closed_result cap cf d s -> t <> reader_tid -> thr s !! t = Some p ->
+  Theorem C05_api_call_returns : forall cap d (s : cstate) t p,
+    reachable cap cf d s -> t <> reader_tid -> thr s !! t = Some p ->
     (exists c, p = CStart c \/ p = CWantLock c \/ p = CInCs c) ->
-    exists ls s', only_threads ls /\ List.length ls <= 4 /\ crun api closed_result cap cf s ls = Some s' /\
+    exists ls s', only_threads ls /\ List.length ls <= 4 /\ crun cap cf s ls = Some s' /\
                   exists r, thr s' !! t = Some (CDone r).
-  Proof. exact (fun cap d s t p => api_call_returns api closed_result cap cf d s t p gen_send_in_cs_false). Qed.
+  Proof. exact (fun cap d s t p => api_call_returns api closed_result pre hnd env cap cf d s t p gen_send_in_cs_false). Qed.
 
   (* every Close call, from any number of goroutines, returns: bounded by the reader's remaining work for the batch *)
-  Theorem C05_close_returns : forall cap d (s : @cstate E X D C R) t p,
-    reachable api closed_result cap cf d s -> t <> reader_tid -> thr s !! t = Some p ->
+  Theorem C05_close_returns : forall cap d (s : cstate) t p,
+    reachable cap cf d s -> t <> reader_tid -> thr s !! t = Some p ->
     (p = KStart \/ p = KInCs \/ p = KCloseFile \/ p = KWaitResp) ->
     exists ls s', only_threads ls /\ List.length ls <= reader_measure (rd s) + 5 /\
-                  crun api closed_result cap cf s ls = Some s' /\ thr s' !! t = Some KDone.
-  Proof. exact (fun cap d s t p => close_call_returns api closed_result cap cf d s t p gen_send_in_cs_false). Qed.
+                  crun cap cf s ls = Some s' /\ thr s' !! t = Some KDone.
+  Proof. exact (fun cap d s t p => close_call_returns api closed_result pre hnd env cap cf d s t p gen_send_in_cs_false). Qed.
 
   (* not merely possible: the measure strictly decreases with every reader step and never increases *)
-  Theorem C05_measure_decreases : forall cap (s s' : @cstate E X D C R),
+  Theorem C05_measure_decreases : forall cap (s s' : cstate),
     CInv cap s -> done_closed s = true -> file_closed s = true ->
-    cstep api closed_result cap cf s (LThr reader_tid) = Some s' -> reader_measure (rd s') < reader_measure (rd s).
-  Proof. exact (fun cap s s' => reader_measure_decreases api closed_result cap cf s s' gen_send_in_cs_false). Qed.
+    cstep cap cf s (LThr reader_tid) = Some s' -> reader_measure (rd s') < reader_measure (rd s).
+  Proof. exact (fun cap s s' => reader_measure_decreases api closed_result pre hnd env cap cf s s' gen_send_in_cs_false). Qed.
 
   (* a blocked reader never holds the mutex *)
-  Theorem C05_blocked_reader_holds_nothing : forall cap d (s : @cstate E X D C R),
-    reachable api closed_result cap cf d s ->
+  Theorem C05_blocked_reader_holds_nothing : forall cap d (s : cstate),
+    reachable cap cf d s ->
     (forall ms a r, rd s <> RCsSend ms a r) /\ (reader_step cap cf s = None -> mu s <> Some reader_tid).
-  Proof. exact (fun cap d s => no_blocking_in_cs api closed_result cap cf d s gen_send_in_cs_false). Qed.
+  Proof. exact (fun cap d s => no_blocking_in_cs api closed_result pre hnd env cap cf d s gen_send_in_cs_false). Qed.
 End Protocol.
 
 (* the certificate matters: were a send performed inside the critical section (the repaired defect 46e1ed3), a caller
    and a closer would wait for ever unless somebody consumes Errors *)
 Theorem C05_send_in_cs_deadlocks :
-  exists (cap : nat) (ls : list (@label nat nat nat nat)) (s : @cstate nat nat nat nat nat),
-    crun (fun d c => (d, 0)) (fun _ => 0) cap (mkCf true true) (cinit 0) ls = Some s /\
+  exists (cap : nat) (ls : list (@label nat nat nat nat)) (s : @Conc.cstate nat nat nat nat nat nat nat),
+    Conc.crun (fun d c => (d, 0)) (fun _ => 0) dl_pre dl_hnd dl_env cap (mkCf true true) (cinit 0) ls = Some s /\
     thr s !! 1 = Some (CWantLock 7) /\ thr s !! 2 = Some KStart /\
-    (forall ls' s', no_consumer ls' -> crun (fun d c => (d, 0)) (fun _ => 0) cap (mkCf true true) s ls' = Some s' ->
+    (forall ls' s', no_consumer ls' -> Conc.crun (fun d c => (d, 0)) (fun _ => 0) dl_pre dl_hnd dl_env cap (mkCf true true) s ls' = Some s' ->
        thr s' !! 1 = Some (CWantLock 7) /\ thr s' !! 2 = Some KStart /\ done_closed s' = false).
 Proof. exact send_in_cs_deadlocks_nat. Qed.
 
